@@ -99,7 +99,9 @@ package main
 //@ ghost func automationUser(state *RuntimeState, user string) bool
 // "the leaf of the first verified chain names `user`, the peer address lies inside its netblocks, `user` is an automation identity and its key is not deny-listed"
 //@ opaque func ipCertUser(state *RuntimeState, chains [][]*x509.Certificate, remoteAddr string, user string) bool = len(chains) > 0 && len(chains[0]) > 0 && user == chains[0][0].Subject.CommonName && ipInCertNetblocks(chains[0][0], remoteAddr) && automationUser(state, user) && !deniedFP(state, keyFP(chains[0][0].PublicKey))
-//@ ghost func passwordAccepted(checker pwauth.PasswordAuthenticator, user string, password string) bool
+// "the configured back end accepted this password for this user" (backendAccepts: the uninterpreted verdict of the
+// pwauth.PasswordAuthenticator interface; for LDAP its meaning is the contract of lib/pwauth/ldap)
+//@ pure func passwordAccepted(checker pwauth.PasswordAuthenticator, user string, password string) bool = checker != nil && backendAccepts(checker, user, password)
 // a token taken from the global password rate limiter and not yet spent on a back-end lookup (C14)
 //@ ghost var ghostPwToken bool
 
@@ -278,8 +280,12 @@ package main
 //@   observe exp int64 = claimsStorageJWT(serializedToken).Expiration
 //@   observe now int64 = nowNanos() / 1000000000
 
-// GetSigned (goroutine + select + conditional defers) is outside the verifier's subset: its subject test is not
-// under contract; the record it accepts went through getStorageDataFromStorageStringDataJWT above.
+// GetSigned: whatever the primary or the cache database hands back (the goroutine and the select are modelled as
+// an arbitrary received value), a record is accepted only if it verifies as a storage record, is unexpired, and was
+// signed for the very user that is being looked up.
+//@ func (*RuntimeState).GetSigned
+//@   results ok, data, err
+//@   ensures ok ==> err == nil && (exists tok string :: verifiedByKeymaster(state, tok) && claimsStorageJWT(tok).TokenType == "storage_data" && claimsStorageJWT(tok).Subject == username && claimsStorageJWT(tok).Expiration >= nowNanos() / 1000000000 && claimsStorageJWT(tok).Data == data)  #C07.cache-record-valid @C07,C04
 
 //@ func (*RuntimeState).updateAuthJWTWithNewAuthLevel
 //@   reveal verifiedByKeymaster
